@@ -124,3 +124,18 @@ Theorem C03_put_temp_valid : forall w, (forall x, w = Some x -> 0 <= x < 65536) 
   payload_ok V_I 0x30C9 (put_temp_payload w) = true /\ payload_ok V_I 0x1260 (put_temp_payload w) = true /\
   parser_temp_tail (put_temp_payload w) = hex_to_temp (word_of_opt w).
 Proof. exact put_temp_valid. Qed.
+
+(* set_tpi_params: built with arguments in the decoder's domain (domain 00 / FC, 1-12 cycles an hour, on 1-30 min, off 0-15 min, band width none or
+   1.50-3.00) => accepted by the regenerated W|1100 regex and decoded by the modelled parser_1100 to exactly what was asked (minutes in quarters) *)
+Theorem C03_set_tpi_params_valid : forall dom cyc on off pbw p,
+  dom = 0 \/ dom = 0xFC -> 1 <= cyc <= 12 -> 1 <= on <= 30 -> 0 <= off <= 15 -> (pbw = None \/ exists k, pbw = Some k /\ 150 <= k <= 300) ->
+  set_tpi_params dom cyc on off pbw = Some p ->
+  payload_ok V_W 0x1100 p = true /\
+  exists w, hex_to_temp (word_of_opt pbw) = Ok w /\
+    parser_1100 p = Ok (mk_tpi (if dom =? 0xFC then Some (lit "FC") else None) cyc (on * 4) (off * 4) (lit "00") w (lit "01")).
+Proof. exact set_tpi_params_valid. Qed.
+(* ... but the constructor checks none of its numeric arguments (its asserts are commented out): 13 cycles an hour is built and the decoder
+   rejects it -- a refuted class (KNOWN_FINDINGS.json) *)
+Theorem C03_set_tpi_params_unchecked_refuted :
+  exists p, set_tpi_params 0 13 5 5 None = Some p /\ payload_ok V_W 0x1100 p = true /\ parser_1100 p = Raise AssertionError.
+Proof. exact set_tpi_params_unchecked_refuted. Qed.
